@@ -294,6 +294,21 @@ func hangSignature(dump string) string {
 // RunAll executes cases on a pool and applies the property's oracle
 func (x *Ctx) RunAll(p *Pool, cases []*proto.Case) {
 	p.Run(cases, func(c *proto.Case, r *proto.Result) {
+		if r.TimedOut && !p.Stop.Load() {
+			// A watchdog expiry is only believed if it happens again when the case runs alone in a
+			// fresh worker: on a heavily loaded machine a starved worker also shows "no progress".
+			// A hang that is a property of the code reproduces; one that does not is inconclusive.
+			single := &Pool{Bin: p.Bin, N: 1, Scratch: filepath.Join(p.Scratch, "retry-"+c.ID), ExtraEnv: p.ExtraEnv, PathPrefix: p.PathPrefix}
+			var again *proto.Result
+			single.Run([]*proto.Case{c}, func(_ *proto.Case, r2 *proto.Result) { again = r2 })
+			if again != nil {
+				if !again.TimedOut {
+					x.Inconclusive("a case exceeded its watchdog once and finished when it was re-run alone")
+					x.Count("watchdog_expiries_not_reproduced", 1)
+				}
+				r = again // also when it hung again: the fresh worker's goroutine dump has no leftovers of earlier cases
+			}
+		}
 		x.Eval(1)
 		x.P.Check(x, c, r)
 	})
